@@ -843,6 +843,21 @@ def decoded_shape(repo, col):
         ok, how = _returns_shape(repo, fn, cs, "self.num_channels")
         col.add(rule, fn, "return shape (C, %s[2], %s[1], %s[0])" % (cs, cs, cs),
                 ok, how, node=fn.node)
+        # each call returns its own array: nothing decoded is kept on self
+        kept = [n for n in walk_local(fn.node) if isinstance(n, (ast.Assign,
+                                                                 ast.AugAssign))
+                and any(isinstance(t, ast.Attribute) and
+                        isinstance(t.value, ast.Name) and t.value.id == "self"
+                        for t in (n.targets if isinstance(n, ast.Assign)
+                                  else [n.target]))]
+        rets_self = [r for r in stmts_of(fn.node) if isinstance(r, ast.Return)
+                     and r.value is not None and norm(r.value).startswith("self.")]
+        okf = not kept and not rets_self
+        col.add(rule + ".fresh", fn, "decode() keeps no array on self", okf,
+                "" if okf else "decode() stores / returns an array held on "
+                "the encoder object: a later read of the same scale "
+                "overwrites the array an earlier read returned",
+                node=(kept + rets_self)[0] if not okf else None)
 
 
 def _shape_matches(elts, cs, ch):
